@@ -66,6 +66,58 @@ static void do_mf(const vector<string>& t) {
   r.emit();
 }
 
+// the six-argument call of Reverse (centerp left to its default): the same observation as the explicit call
+static string obs_default(const string& code) {
+  int zone = -99, prec = -77; bool n1 = true, n2 = false; double x = vt::sentinel(1), y = vt::sentinel(2);
+  string res = guarded([&] { MGRS::Reverse(code, zone, n1, x, y, prec); });
+  int z2 = -99, p2 = -77; double x2 = vt::sentinel(1), y2 = vt::sentinel(2);
+  guarded([&] { MGRS::Reverse(code, z2, n2, x2, y2, p2); });
+  bool untouched = zone == -99 && prec == -77 && n1 && !n2 && vt::is_sentinel(x, 1) && vt::is_sentinel(y, 2);
+  bool grid = true; vector<long long> X{0, 0}, Y{0, 0};
+  if (res == "ok") {
+    if (std::isnan(x) && std::isnan(y)) res = "nan";
+    else if (std::isnan(x) || std::isnan(y)) res = "other";
+    else { X = halfum(x, grid); Y = halfum(y, grid); }
+  }
+  Rec d; d.str("out", res).i("zone", zone).b("northp", n1).i("p", prec).li("x", X).li("y", Y).b("grid", grid).b("untouched", untouched);
+  return d.s + "}";
+}
+
+// MGRS::Decode: result kind, the four parts as byte codes, outputs untouched
+static string obs_decode(const string& code) {
+  const string G = "~g~", B = "~b~", E = "~e~", N = "~n~";
+  string gz = G, blk = B, e = E, n = N;
+  string res = guarded([&] { MGRS::Decode(code, gz, blk, e, n); });
+  Rec d; d.str("out", res).li("gz", vt::codes(gz)).li("blk", vt::codes(blk)).li("e", vt::codes(e)).li("n", vt::codes(n))
+    .b("untouched", gz == G && blk == B && e == E && n == N);
+  return d.s + "}";
+}
+
+// "mfl z n x y latk p": the overload with a supplied latitude (latk micro-degrees, x y whole metres)
+static void emit_mfl(int zone, bool northp, long long xk, long long yk, long long latk, int prec) {
+  double lat = double(latk) / 1e6;
+  string out = UNCH;
+  string res = guarded([&] { MGRS::Forward(zone, northp, double(xk), double(yk), lat, prec, out); });
+  Rec r; r.str("e", "mfl").i("z", zone).b("n", northp).li("x", {xk, 0}).li("y", {yk, 0}).i("la", latk).i("p", prec).str("out", res)
+    .li("code", res == "ok" ? vt::codes(out) : vector<long long>{}).b("untouched", out == UNCH);
+  r.emit();
+}
+static void do_mfl(const vector<string>& t) {
+  emit_mfl(atoi(t[1].c_str()), atoi(t[2].c_str()) != 0, atoll(t[3].c_str()), atoll(t[4].c_str()), atoll(t[5].c_str()), atoi(t[6].c_str()));
+}
+
+// "mn z n which ov p": NaN easting (which & 1) / northing (which & 2) through the overload without (ov = 6) or with (7) a latitude
+static void do_mn(const vector<string>& t) {
+  int zone = atoi(t[1].c_str()); bool northp = atoi(t[2].c_str()) != 0; int w = atoi(t[3].c_str()), ov = atoi(t[4].c_str()), prec = atoi(t[5].c_str());
+  double x = (w & 1) ? Math::NaN() : (zone == 0 ? 2e6 : 5e5), y = (w & 2) ? Math::NaN() : (zone == 0 ? 2e6 : 5e6);
+  string c = UNCH;
+  string res = ov == 7 ? guarded([&] { MGRS::Forward(zone, northp, x, y, northp ? 45.0 : -45.0, prec, c); })
+                       : guarded([&] { MGRS::Forward(zone, northp, x, y, prec, c); });
+  int z = 7, p = 7; bool nn = true; double x2 = 1, y2 = 2; string d = guarded([&] { MGRS::Reverse(c, z, nn, x2, y2, p, true); });
+  Rec r; r.str("e", "mnan").i("z", zone).b("n", northp).i("w", w).i("ov", ov).i("p", prec).str("out", res).li("code", vt::codes(c))
+    .str("dout", d).i("z2", z).i("p2", p).b("isnan", std::isnan(x2) && std::isnan(y2)); r.emit();
+}
+
 static void do_mr(const vector<string>& t) {
   bool centerp = atoi(t[1].c_str()) != 0; string code = from_codes(t, 2);
   int zone = -99, prec = -77; bool n1 = true, n2 = false; double x = vt::sentinel(1), y = vt::sentinel(2);
@@ -75,7 +127,7 @@ static void do_mr(const vector<string>& t) {
   bool untouched = zone == -99 && prec == -77 && n1 && !n2 && vt::is_sentinel(x, 1) && vt::is_sentinel(y, 2);
   Rec r; r.str("e", "mr").li("code", vt::codes(code)).b("c", centerp);
   bool grid = true; vector<long long> X{0, 0}, Y{0, 0};
-  long long zb = -99, dl = -1, latq = 0;
+  long long zb = -99, dl = -1, latq = 0, lonq = 0;
   if (res == "ok") {
     if (std::isnan(x) && std::isnan(y)) res = "nan";
     else if (std::isnan(x) || std::isnan(y)) res = "other";
@@ -86,12 +138,15 @@ static void do_mr(const vector<string>& t) {
         if (guarded([&] { UTMUPS::Reverse(zone, n1, x, y, lat, lon); }) == "ok") {
           zb = band_of(lat); latq = vt::q1(lat, 1e-6L);
           if (zone > 0) dl = vt::q1(fabs(remainder(lon - (6.0 * zone - 183), 360.0)), 1e-6L);
+          lonq = vt::q1(lon, 1e-6L);
         }
       }
     }
   }
   r.str("out", res).i("zone", zone).b("northp", n1).i("p", prec).li("x", X).li("y", Y).b("grid", grid)
-    .b("untouched", untouched).i("zb", zb).i("dl", dl).i("latq", latq);
+    .b("untouched", untouched).i("zb", zb).i("dl", dl).i("latq", latq).i("lonq", lonq);
+  r.raw("def", obs_default(code));
+  r.raw("dec", obs_decode(code));
   r.emit();
 }
 
@@ -118,7 +173,7 @@ static long long excess_nm(double p, double c, double cell) {   // (|p - c| - ce
   if (ex > 1e9L) return 1000000000LL; if (ex < -1e9L) return -1000000000LL; return (long long) ceill(ex);
 }
 static void do_record(uint64_t seed, long long n) {
-  vt::Rng g(seed);
+  vt::Rng g(seed), g2(seed * 7919 + 17);      // g2: separate stream for the supplied-latitude records
   for (long long it = 0; it < n; ++it) {
     int zone; bool northp; double x, y;
     if (it % 3 == 0) {        // from a geographic point (MGRS limits)
@@ -180,7 +235,25 @@ static void do_record(uint64_t seed, long long n) {
     int z4 = -1, p4 = -1; bool n4 = false; double x4 = 1, y4 = 2;
     string r4 = guarded([&] { MGRS::Reverse(lc, z4, n4, x4, y4, p4, true); });
     r.b("caseeq", r4 == dres && z4 == z2 && n4 == n2 && p4 == p2 && vt::bits(x4) == vt::bits(x2) && vt::bits(y4) == vt::bits(y2));
+    // the six-argument call (centerp defaulted): the centre of the square is documented as the default
+    int z6 = -99, p6 = -77; bool n6 = !northp; double x6 = 0, y6 = 0;
+    string r6 = guarded([&] { MGRS::Reverse(code, z6, n6, x6, y6, p6); });
+    r.str("d6out", r6).i("z6", z6).b("n6", n6).i("p6", p6)
+      .li("exd", p >= 0 && r6 == "ok" ? vector<long long>{excess_nm(x, x6, cell), excess_nm(y, y6, cell)} : vector<long long>{0, 0});
     r.emit();
+    // the overload with a SUPPLIED latitude on a whole-metre point: consistent and inconsistent latitudes
+    if (zone > 0 && res == "ok" && g2.range(0, 2) == 0) {
+      long long xk = (long long) floor(x), yk = (long long) floor(y); double lat = 0, lon = 0;
+      if (guarded([&] { UTMUPS::Reverse(zone, northp, double(xk), double(yk), lat, lon, true); }) == "ok") {
+        long long k0 = llround(lat * 1e6), k = k0; int m = int(g2.range(0, 4));
+        if (m == 0) { long long e = llround(lat / 8) * 8000000LL; k = k0 < e ? e + g2.range(0, 2000000) : e - g2.range(1, 2000000); }   // just across the nearest edge
+        else if (m == 1) k = k0 + 8000000LL * (g2.coin() ? 1 : -1) * g2.range(1, 2);                                      // one or two bands away
+        else if (m == 2) k = g2.range(-90000000, 90000000);
+        else if (m == 3) k = 8000000LL * g2.range(-11, 11) + g2.range(-1, 1);                                                 // on / next to an edge
+        if (k > 90000000) k = 90000000; if (k < -90000000) k = -90000000;
+        emit_mfl(zone, northp, xk, yk, k, p);
+      }
+    }
   }
   // NaN / INVALID
   { string c; string res = guarded([&] { MGRS::Forward(31, true, Math::NaN(), 1e6, 5, c); });
@@ -198,7 +271,7 @@ int main(int argc, char** argv) {
     string line;
     while (getline(cin, line)) {
       auto t = vt::split(line); if (t.empty()) continue;
-      if (t[0] == "mf") do_mf(t); else if (t[0] == "mr") do_mr(t);
+      if (t[0] == "mf") do_mf(t); else if (t[0] == "mr") do_mr(t); else if (t[0] == "mfl") do_mfl(t); else if (t[0] == "mn") do_mn(t);
     }
     return 0;
   }
